@@ -163,7 +163,7 @@ PROPS['C12'] = dict(
     level_text='Allocator: complete proof of address/length/alignment/disjointness postconditions and of the availability ledger (avail decreases by exactly len + alignment padding; no padding when len is a multiple of 64); no panic whenever the request fits; the out-of-space panic is reachable only when it does not fit (should_panic harness). Coefficient-domain in-place ops (rotate/automorphism/mul_xp_minus_one/normalize _assign): unbounded Verus chain size query -> HAL default glue (take_slice of *_tmp_bytes/8 elements) -> scratch precondition of the reference operation.',
     level_note='Core layer: glwe_keyswitch_tmp_bytes / glwe_keyswitch_internal_tmp_bytes / gglwe_product_dft_tmp_bytes (and glwe_decrypt_tmp_bytes for glwe_decrypt) are proved sufficient for glwe_keyswitch, glwe_keyswitch_internal and gglwe_product_dft (every take and every inner availability assertion holds with exactly the advertised bytes, unbounded in all shape parameters) under A-ALIGN and A-VMP-RES; the other DFT-family and core operations are NOT decided here; for ring degrees N < 8 limb byte sizes are not multiples of 64 and padding is not budgeted by size queries (DESIGN §6-4).',
     units=[
-        V('core_key_encrypt'), V('core_ksk_encrypt'),
+        V('core_glwe_encrypt'), V('core_key_encrypt'), V('core_ksk_encrypt'),
         K('poulpy-cpu-ref', 'hal_defaults::scratch::verif_kani', ['c12_take_slice_aligned_contract', 'c12_take_slice_aligned_panics_iff_too_small',
           'c12_take_slice_default_u8', 'c12_take_slice_default_i64', 'c12_take_slice_default_f64', 'c12_take_slice_default_i128'], cls='complete', timeout=600,
           functions=['hal_defaults::scratch::take_slice_aligned', 'HalScratchDefaults::take_slice_default', 'HalScratchDefaults::scratch_available_default', 'HalScratchDefaults::scratch_from_bytes_default']),
